@@ -361,3 +361,30 @@ func (r *Rev) Update(from, to int) *revocation.Update {
 	}
 	return u
 }
+
+var (
+	variantMu sync.Mutex
+	variants  = map[string]*Key{}
+)
+
+// VariantLm returns (and caches) a key that shares modulus, bases and private key with k but declares another attribute size
+// Lm (the quantity in which the 4096-bit parameter set differs from the smaller ones): a stand-in for a key of another size
+// class that does not need 2048-bit safe primes.
+func VariantLm(k *Key, lm uint) *Key {
+	name := fmt.Sprintf("%s+lm%d", k.Name, lm)
+	variantMu.Lock()
+	defer variantMu.Unlock()
+	if v, ok := variants[name]; ok {
+		return v
+	}
+	base := k.PK.Params.BaseParameters
+	base.Lm = lm
+	params := &gabikeys.SystemParameters{BaseParameters: base, DerivedParameters: gabikeys.MakeDerivedParameters(base)}
+	pk := *k.PK
+	pk.Params = params
+	pk.Issuer = name
+	sk := *k.SK
+	v := &Key{Name: name, SK: &sk, PK: &pk, Ord: k.Ord}
+	variants[name] = v
+	return v
+}
